@@ -27,6 +27,7 @@ def _settings(cls):
 
 COEFFS = {
     "flat": dict(model_type="tidd", intercept=10.0),
+    "flat2": dict(model_type="tidd", intercept=20.0),
     "vshape": dict(model_type="hdd_tidd_cdd", intercept=10.0, hdd_bp=50.0, hdd_beta=2.0, cdd_bp=70.0, cdd_beta=0.5),
     "heat": dict(model_type="hdd_tidd", intercept=7.0, hdd_bp=55.0, hdd_beta=-1.5),
     "smooth": dict(model_type="hdd_tidd_cdd_smooth", intercept=12.0, hdd_bp=45.0, hdd_beta=1.0, hdd_k=0.3, cdd_bp=72.0, cdd_beta=0.8, cdd_k=0.2),
@@ -36,7 +37,7 @@ TC = dict(T_min=0.0, T_max=100.0, T_min_seg=5.0, T_max_seg=95.0)
 
 def doc(layout="single", cls=dm.DailyModel, tz="US/Pacific", dq=()):
     """stored-model document.  layout: 'single' (one flat sub-model), 'single-v' (one V-shaped),
-    'wdwe' (weekday: V-shaped, weekend: flat), 'season' (summer heat / shoulder+winter flat)"""
+    'wdwe' (weekday: V-shaped, weekend: flat), 'wdwe-flat' (two flat sub-models with different base loads), 'season' (summer heat / shoulder+winter flat)"""
     def sub(kind, f=1.0):
         return dict(coefficients=dict(COEFFS[kind]), temperature_constraints=dict(TC), f_unc=f)
     if layout == "single":
@@ -45,6 +46,8 @@ def doc(layout="single", cls=dm.DailyModel, tz="US/Pacific", dq=()):
         subs = {"fw-su_sh_wi": sub("vshape", 2.0)}
     elif layout == "wdwe":
         subs = {"wd-su_sh_wi": sub("vshape", 2.0), "we-su_sh_wi": sub("flat", 3.0)}
+    elif layout == "wdwe-flat":
+        subs = {"wd-su_sh_wi": sub("flat", 2.0), "we-su_sh_wi": sub("flat2", 3.0)}
     elif layout == "season":
         subs = {"fw-su": sub("heat", 2.0), "fw-sh_wi": sub("flat", 3.0)}
     else:
